@@ -108,9 +108,11 @@ def main() -> None:
         "engines": [
             {"name": "tlc", "path": "/usr/local/bin/tlc", "serves_properties": sorted(CLAIMED),
              "kind_free_text": "TLC 1.8 explicit-state model checker on /verif/spec/*.tla (MC: internal theorems; GEN: exported states replayed into the code; TRACE: ndjson records of real executions validated step by step)"},
+            {"name": "apalache", "path": "/usr/local/bin/apalache-mc", "serves_properties": ["C07"],
+             "kind_free_text": "Apalache 0.58 symbolic model checker: discharges the inductive invariant of the RFC slice procedure (spec/SliceInd.tla) for unbounded integers; TLC checks the same procedure on small constants and exports its states"},
         ],
         "checks": checks,
-        "notes": "One TLA+ specification (/verif/spec) used in three TLC modes: MC, GEN (spec->code), TRACE (code->spec). See DESIGN.md. `./check EXTRA` (not a listed property) holds coverage beyond the list: TokenStream.tla replayed into tokens.TokenStream, the repository's own test suite trace-validated at the API boundary, and Lexer.tla bound to Lexer.run step by step through the env-guarded hook. `./check selftest` holds the RFC anchors, the corrupted-trace self-test and (thorough) the 120 seeded changes.",
+        "notes": "One TLA+ specification (/verif/spec) used in three TLC modes: MC, GEN (spec->code), TRACE (code->spec). See DESIGN.md. `./check EXTRA` (not a listed property) holds coverage beyond the list: TokenStream.tla replayed into tokens.TokenStream, the repository's own test suite trace-validated at the API boundary, and Lexer.tla bound to Lexer.run step by step through the env-guarded hook. `./check selftest` holds the RFC anchors, the corrupted-trace self-test and (thorough) the 264 seeded changes (each must be caught) and the 24 behaviour-preserving changes (each must stay quiet). Also beyond the list, in ./check EXTRA: Parser.tla / Evaluator.tla / Unparse.tla (the implementation-shaped parser and evaluator, refinement theorems T15 / T16 / T2) bound to the code by exported unit texts and pcompile records. Apalache discharges the unbounded slice invariant (SliceInd.tla) inside C07.",
         "not_applicable": na,
     }
     with open(os.path.join(VERIF, "MANIFEST.json"), "w") as fh:
